@@ -229,6 +229,24 @@ func Mutants(p *Program) []Mutant {
 	}
 	site("invalid-regex", isPat, mutRe(func(s string) string { return "(" + s }))
 	site("regex-too-long", isPat, mutRe(func(s string) string { return s + strings.Repeat("a", 1025) }))
+	// 9b over the length limit only as a whole: a literal and a constant fragment, each within the limit
+	{
+		half := strings.Repeat("b", 600)
+		for vi, mk := range []func(re string) string{
+			func(re string) string { return "/" + re + strings.Repeat("a", 600) + "/ + LONGZZ" },
+			func(re string) string { return "LONGZZ + /" + re + strings.Repeat("a", 600) + "/" },
+			func(re string) string { return "/" + re + "/ + LONGZZ + LONGZZ" },
+		} {
+			mk := mk
+			before := len(out)
+			site(fmt.Sprintf("regex-too-long-by-concatenation-%d", vi), func(n interface{}) bool { _, ok := n.(Pat); return ok }, func(n interface{}) interface{} {
+				return RawPat{mk(n.(Pat).Re)}
+			})
+			for i := before; i < len(out); i++ {
+				out[i].P.Consts = append(out[i].P.Consts, "const LONGZZ /"+half+"/")
+			}
+		}
+	}
 	// 10 division / modulus by the literal zero on integers
 	isIntAtom := func(n interface{}) bool {
 		switch x := n.(type) {
@@ -241,6 +259,16 @@ func Mutants(p *Program) []Mutant {
 	}
 	site("integer-division-by-literal-zero", isIntAtom, func(n interface{}) interface{} { return Bin{"/", n.(Expr), IntLit{0}} })
 	site("integer-modulus-by-literal-zero", isIntAtom, func(n interface{}) interface{} { return Bin{"%", n.(Expr), IntLit{0}} })
+	// 11 the same defects inside an operand that algebra makes irrelevant (a factor of the literal 0)
+	site("division-by-zero-times-zero", isIntAtom, func(n interface{}) interface{} {
+		return Bin{"*", Bin{"/", n.(Expr), IntLit{0}}, IntLit{0}}
+	})
+	site("zero-times-undeclared-metric", isIntAtom, func(n interface{}) interface{} {
+		return Bin{"+", n.(Expr), Bin{"*", IntLit{0}, Ref{Name: "nosuchmetric_zz", T: TInt}}}
+	})
+	site("unknown-capture-times-zero", isIntAtom, func(n interface{}) interface{} {
+		return Bin{"+", n.(Expr), Bin{"*", Cap{"nosuchgroup", TInt}, IntLit{0}}}
+	})
 	return out
 }
 
